@@ -170,6 +170,12 @@ func gen(r *hx.Rand, n int, tier string, emit func(string), st *hx.Stats) {
 			// mostly the pipeline's discipline (one consumer); sometimes the general container claim
 			nR := pick(c, 1, 1, 1, 1, 1, 1, 1, 1, 1, 1, 1, 2, 3)
 			emit(fmt.Sprintf("win %d %d %d", pick(c, 2, 4, 8), nR, 1+c.Intn(3)))
+		case k < 978:
+			st.Inc("winC")
+			emit(fmt.Sprintf("winC %d %d %d", pick(c, 2, 4), 1+c.Intn(3), c.Intn(3)))
+		case k < 988:
+			st.Inc("awin")
+			emit(fmt.Sprintf("awin %d %d", 1+c.Intn(4), c.Intn(2)))
 		default:
 			st.Inc("winS")
 			emit(fmt.Sprintf("winS %d %d %d", pick(c, 2, 4), pick(c, 1, 1, 1, 1, 1, 1, 1, 1, 1, 1, 1, 2, 3), 1+c.Intn(2)))
@@ -540,6 +546,124 @@ loop:
 	return fmt.Sprintf("ret=%d size=%d vals=%s", len(got), size, fmtInts(got))
 }
 
+// winC <cap> <nR> <k>: nR receivers stopped before parking, k Sends, then Close, then release:
+// every receiver must return (k of them with an item, in any assignment; the rest with false).
+func execWinC(f []string) string {
+	capacity, _ := strconv.Atoi(f[1])
+	nR, _ := strconv.Atoi(f[2])
+	k, _ := strconv.Atoi(f[3])
+	q := mpmc.MustQueue[int](capacity, -1)
+	ws := make([]*windowCtx, nR)
+	res := make(chan int, nR)
+	var wg sync.WaitGroup
+	for i := range ws {
+		ws[i] = newWindow()
+		wg.Add(1)
+		go func(w *windowCtx) {
+			defer wg.Done()
+			defer catchPanic()
+			v, ok := q.Recv(w)
+			if ok {
+				res <- v
+			} else {
+				res <- -1
+			}
+		}(ws[i])
+	}
+	if !waitAt(ws) {
+		poisoned.Store(true)
+		return "TIMEOUT receivers did not reach the park point"
+	}
+	for i := 0; i < k; i++ {
+		if !q.Send(bg, 100+i) {
+			return "senderr"
+		}
+	}
+	q.Close()
+	for _, w := range ws {
+		close(w.release)
+	}
+	items, falses := 0, 0
+	deadline := time.After(stuckWait)
+loop:
+	for items+falses < nR {
+		select {
+		case v := <-res:
+			if v >= 0 {
+				items++
+			} else {
+				falses++
+			}
+		case <-deadline:
+			break loop
+		}
+	}
+	size := q.Size()
+	if m := takePanic(); m != "" {
+		return m
+	}
+	return fmt.Sprintf("ret=%d size=%d items=%d", items+falses, size, items)
+}
+
+// awin <k> <close>: the accumulator's consumer is stopped between "tail.Next is nil" and the select;
+// k Sends complete (and optionally Close); released, it must receive all k values, then (if closed) false.
+func execAwin(f []string) string {
+	k, _ := strconv.Atoi(f[1])
+	cl, _ := strconv.Atoi(f[2])
+	a := mpsc.NewAccumulator[int]()
+	w := newWindow()
+	type rv struct {
+		v  int
+		ok bool
+	}
+	res := make(chan rv, 1)
+	go func() {
+		defer catchPanic()
+		v, ok := a.Recv(w)
+		res <- rv{v, ok}
+	}()
+	if !waitAt([]*windowCtx{w}) {
+		poisoned.Store(true)
+		return "TIMEOUT consumer did not reach the park point"
+	}
+	for i := 0; i < k; i++ {
+		if !a.Send(100 + i) {
+			return "senderr"
+		}
+	}
+	if cl == 1 {
+		a.Close()
+	}
+	close(w.release)
+	var got []int
+	select {
+	case r := <-res:
+		if r.ok {
+			got = append(got, r.v)
+		}
+	case <-time.After(stuckWait):
+		a.Close()
+		return "ret=0 stuck"
+	}
+	// the rest is linked already: try-receive must find it
+	for {
+		v, ok := a.TryRecv()
+		if !ok {
+			break
+		}
+		got = append(got, v)
+	}
+	closedSeen := "-"
+	if cl == 1 {
+		_, ok := a.Recv(bg)
+		closedSeen = strconv.FormatBool(!ok)
+	}
+	if m := takePanic(); m != "" {
+		return m
+	}
+	return fmt.Sprintf("ret=%d vals=%s closed=%s", len(got), fmtInts(got), closedSeen)
+}
+
 func execWinS(f []string) string {
 	capacity, _ := strconv.Atoi(f[1])
 	nS, _ := strconv.Atoi(f[2])
@@ -631,6 +755,10 @@ func exec(line string, st *hx.Stats) string {
 		run = func() string { return execWin(f) }
 	case f[0] == "winS" && len(f) == 4:
 		run = func() string { return execWinS(f) }
+	case f[0] == "winC" && len(f) == 4:
+		run = func() string { return execWinC(f) }
+	case f[0] == "awin" && len(f) == 3:
+		run = func() string { return execAwin(f) }
 	default:
 		return "badcase"
 	}
